@@ -139,8 +139,30 @@ func Web(r *rand.Rand) *WebURL {
 		w.HasFrag = true
 		w.Frag = unreservedToken(r, 1, 6)
 	}
+	if r.IntN(16) == 0 {
+		// one LONG token (hundreds to thousands of unreserved characters, just beyond round sizes): work or
+		// size limits per component, buffers that are grown once, "long input" fast paths
+		n := Pick(r, WebLongSizes) + r.IntN(4)
+		long := unreservedToken(r, n, n)
+		switch r.IntN(4) {
+		case 0:
+			w.Segs = append(w.Segs, long)
+		case 1:
+			k := r.IntN(len(w.Segs) + 1)
+			w.Segs = append(w.Segs[:k:k], append([]string{long}, w.Segs[k:]...)...)
+		case 2:
+			w.HasQuery = true
+			w.Query = append(w.Query, WebPair{Name: unreservedToken(r, 1, 4), HasEq: true, Value: long})
+		default:
+			w.HasFrag = true
+			w.Frag = long
+		}
+	}
 	return w
 }
+
+// WebLongSizes: lengths of the long token of a web URL.
+var WebLongSizes = []int{65, 129, 257, 341, 513, 600, 1025, 1030, 2049, 4097}
 
 // Variations selects which spelling differences Spell may apply.
 type Variations struct {
